@@ -54,7 +54,7 @@ static void clr_aux(void * ip, void * p) { (void)ip; (void)p; clr_bad = 1; }   /
 static void clr(void * ip, void * p)
 {
     cstl_map_iterator_t * i = ip;
-    h_check_priv(p);
+    h_check_priv2(p, H_COOKIE2);   /* the clear context is not the comparison context */
     if (nestclear) cstl_map_clear(&auxmap, clr_aux, &aux_cookie);
     if (clr_n < MAXV) {
         clr_log[3 * clr_n] = kidp(i->key, 1); clr_log[3 * clr_n + 1] = vidp(i->val, 1);
@@ -144,7 +144,7 @@ static void run_case(const struct h_case * c)
             printf("ok %zu", cstl_map_size(&map));
         } else if (h_weq(l, 0, "clear") || h_weq(l, 0, "clear_nocb")) {
             clr_n = 0; clr_bad = 0;
-            cstl_map_clear(&map, h_weq(l, 0, "clear") ? clr : NULL, H_COOKIE);
+            cstl_map_clear(&map, h_weq(l, 0, "clear") ? clr : NULL, H_COOKIE2);
             ha_active = 0;
             printf("ok");
             for (k = 0; k < clr_n && k < MAXV; k++) printf(" %d %d %d", clr_log[3 * k], clr_log[3 * k + 1], clr_log[3 * k + 2]);
